@@ -330,6 +330,46 @@ fn random_cases(rng: &mut Rng, count: usize, out: &mut Vec<Case>) {
     }
 }
 
+/// UTF-16 texts with an unpaired surrogate directly followed by code units of every byte shape (both bytes in 0x80..0xBF,
+/// one of them, none), and UTF-8 texts with a stray byte followed by continuation-like characters
+fn surrogate_cases(out: &mut Vec<Case>) {
+    for enc in ["utf16le", "utf16be"] {
+        for bom in [true, false] {
+            for lone in [0xD800u16, 0xDBFF, 0xDC00, 0xDFFF] {
+                for follow in [0x8080u16, 0x4E80, 0x8F9E, 0xBFBF, 0x80BF, 0x0041, 0x3042, 0xA080, 0x00BF, 0xD800] {
+                    for tail in ["b\n", "\u{8a9e}b\n", ""] {
+                        let mut b = encode("k: a", enc, bom);
+                        for u in [lone, follow] {
+                            if enc == "utf16le" {
+                                b.extend_from_slice(&u.to_le_bytes());
+                            } else {
+                                b.extend_from_slice(&u.to_be_bytes());
+                            }
+                        }
+                        b.extend_from_slice(&encode(tail, enc, false));
+                        out.push(Case { fam: "surrogate", bytes: b, text: None, enc: "", bom: false, note: format!("{enc}:{lone:04X}:{follow:04X}") });
+                    }
+                }
+            }
+        }
+    }
+    for stray in [0x80u8, 0xBF, 0xC3, 0xE4, 0xF0, 0xFF] {
+        for follow in ["\u{80}", "\u{bf}", "\u{8080}", "\u{4e80}", "a", "\u{1f600}"] {
+            for second in [None, Some(0xFFu8), Some(0x80)] {
+                let mut b = b"k: a".to_vec();
+                b.push(stray);
+                b.extend_from_slice(follow.as_bytes());
+                if let Some(x) = second {
+                    b.push(b'c');
+                    b.push(x);
+                }
+                b.extend_from_slice(b"b\n");
+                out.push(Case { fam: "surrogate", bytes: b, text: None, enc: "", bom: false, note: format!("utf8:{stray:02X}") });
+            }
+        }
+    }
+}
+
 fn garbled_cases(rng: &mut Rng, count: usize, out: &mut Vec<Case>) {
     for i in 0..count {
         let n = if i % 12 == 11 { 200 + rng.below(1200) } else { 1 + rng.below(48) };
@@ -525,6 +565,7 @@ pub fn decode_cmd(a: &Args) {
         exhaustive_cases(a.num("maxlen", if thorough { 6 } else { 4 }), &mut cases);
         random_cases(&mut rng, a.num("random", if thorough { 40_000 } else { 3_000 }), &mut cases);
         garbled_cases(&mut rng, a.num("garbled", if thorough { 30_000 } else { 3_000 }), &mut cases);
+        surrogate_cases(&mut cases);
     }
     let mut jobs: Vec<Job> = vec![];
     for (ci, _) in cases.iter().enumerate() {
